@@ -79,6 +79,8 @@ pub struct Ret {
     pub map: BTreeMap<String, i32>,
     pub opt_str: Option<String>,
     pub doubles_json: String,
+    pub list: Vec<i32>,
+    pub dmap: BTreeMap<String, f64>,
 }
 
 #[derive(Clone, Default)]
@@ -142,8 +144,8 @@ impl Handler {
         self.record(format!("optBinary(auth={:?}, present={:?})", auth_.as_str(), present));
         Ok(if present { Some(StreamingBody(self.ret().bin)) } else { None })
     }
-    fn do_map_ret(&self, n: i32) -> Result<BTreeMap<String, i32>, Error> {
-        self.record(format!("mapRet(n={:?})", n));
+    fn do_map_ret(&self, n: i32, ids: Vec<conjure_object::Uuid>) -> Result<BTreeMap<String, i32>, Error> {
+        self.record(format!("mapRet(n={:?}, ids={:?})", n, ids));
         Ok(self.ret().map)
     }
     fn do_no_ret(&self, async_: Option<String>, loop_: String) -> Result<(), Error> {
@@ -157,6 +159,18 @@ impl Handler {
     fn do_safe_body(&self, safe_body_arg: i32) -> Result<i32, Error> {
         self.record(format!("safeBody(safeBodyArg={:?})", safe_body_arg));
         Ok(safe_body_arg)
+    }
+    fn do_list_alias_ret(&self, n: i32) -> Result<ListAlias, Error> {
+        self.record(format!("listAliasRet(n={:?})", n));
+        Ok(ListAlias(self.ret().list))
+    }
+    fn do_opt_alias_ret(&self, n: i32) -> Result<OptStrAlias, Error> {
+        self.record(format!("optAliasRet(n={:?})", n));
+        Ok(OptStrAlias(self.ret().opt_str))
+    }
+    fn do_map_alias_ret(&self, n: i32) -> Result<MapAlias, Error> {
+        self.record(format!("mapAliasRet(n={:?})", n));
+        Ok(MapAlias(self.ret().dmap))
     }
     fn do_dbl_ret(&self, x: f64) -> Result<Doubles, Error> {
         self.record(format!("dblRet(x={:?})", x.to_bits()));
@@ -187,8 +201,8 @@ impl VerifService<RemoteBody, Vec<u8>> for Handler {
     fn opt_binary(&self, auth_: BearerToken, present: bool) -> Result<Option<StreamingBody>, Error> {
         self.do_opt_binary(auth_, present)
     }
-    fn map_ret(&self, n: i32) -> Result<BTreeMap<String, i32>, Error> {
-        self.do_map_ret(n)
+    fn map_ret(&self, n: i32, ids: Vec<conjure_object::Uuid>) -> Result<BTreeMap<String, i32>, Error> {
+        self.do_map_ret(n, ids)
     }
     fn no_ret(&self, async_: Option<String>, loop_: String) -> Result<(), Error> {
         self.do_no_ret(async_, loop_)
@@ -201,6 +215,15 @@ impl VerifService<RemoteBody, Vec<u8>> for Handler {
     }
     fn dbl_ret(&self, x: f64) -> Result<Doubles, Error> {
         self.do_dbl_ret(x)
+    }
+    fn list_alias_ret(&self, n: i32) -> Result<ListAlias, Error> {
+        self.do_list_alias_ret(n)
+    }
+    fn opt_alias_ret(&self, n: i32) -> Result<OptStrAlias, Error> {
+        self.do_opt_alias_ret(n)
+    }
+    fn map_alias_ret(&self, n: i32) -> Result<MapAlias, Error> {
+        self.do_map_alias_ret(n)
     }
 }
 
@@ -227,8 +250,8 @@ impl AsyncVerifService<RemoteBody, Vec<u8>> for Handler {
     async fn opt_binary(&self, auth_: BearerToken, present: bool) -> Result<Option<StreamingBody>, Error> {
         self.do_opt_binary(auth_, present)
     }
-    async fn map_ret(&self, n: i32) -> Result<BTreeMap<String, i32>, Error> {
-        self.do_map_ret(n)
+    async fn map_ret(&self, n: i32, ids: Vec<conjure_object::Uuid>) -> Result<BTreeMap<String, i32>, Error> {
+        self.do_map_ret(n, ids)
     }
     async fn no_ret(&self, async_: Option<String>, loop_: String) -> Result<(), Error> {
         self.do_no_ret(async_, loop_)
@@ -241,6 +264,15 @@ impl AsyncVerifService<RemoteBody, Vec<u8>> for Handler {
     }
     async fn dbl_ret(&self, x: f64) -> Result<Doubles, Error> {
         self.do_dbl_ret(x)
+    }
+    async fn list_alias_ret(&self, n: i32) -> Result<ListAlias, Error> {
+        self.do_list_alias_ret(n)
+    }
+    async fn opt_alias_ret(&self, n: i32) -> Result<OptStrAlias, Error> {
+        self.do_opt_alias_ret(n)
+    }
+    async fn map_alias_ret(&self, n: i32) -> Result<MapAlias, Error> {
+        self.do_map_alias_ret(n)
     }
 }
 
